@@ -186,7 +186,7 @@ def _run(mod, prop, tier, seed, replay, jobs, tmp, t0):
     }
     coverage.update(extra_cov)
     wall = time.time() - t0
-    if not replay:
+    if not replay and not os.environ.get('VERIF_NO_EVIDENCE'):      # (set when a check is run against a seeded mutant)
         core.write_evidence(prop, tier, seed, mod.LEVEL, coverage, list(mod.ASSUMPTIONS) + notes, wall, len(unknown))
     print('%s tier=%s seed=%d evaluations=%d distinct=%d violations=%d known=%d wall=%.1fs -> %s' % (
         prop, tier, seed, agg['evaluations'], len(agg['hashes']), len(unknown), sum(len(v) for v in known_hits.values()),
